@@ -97,6 +97,7 @@ func operandsNotEdges(m *Model) bool {
 // ---- spec results from the Lean driver ----
 
 type specRes struct {
+	Raw         string
 	Unconverged bool
 	Reject      bool
 	Kinds       string
@@ -106,7 +107,7 @@ type specRes struct {
 
 func parseSpec(s string) specRes {
 	x := parseSX(s)
-	r := specRes{Weights: map[string]map[string]int{}, Wild: map[string][]string{}}
+	r := specRes{Raw: s, Weights: map[string]map[string]int{}, Wild: map[string][]string{}}
 	if x.Head() == "unconverged" {
 		r.Unconverged = true
 		return r
@@ -485,6 +486,8 @@ func init() {
 		rng := rand.New(rand.NewSource(c.Seed))
 		models := genWModels(rng, c.Pick(1000, 10000))
 		cases := evalWCases(c, rng, models, c.Pick(3, 10), c.Pick(5, 7), c.Pick(16, 40))
+		permOps := []string{}
+		permRef := []*wCase{}
 		for _, wc := range cases {
 			c.R.Evaluations++
 			c.R.Programs++
@@ -520,6 +523,12 @@ func init() {
 					bad = true
 					break
 				}
+				if k == 0 {
+					// the specification on the permuted model: Props/C06.type_order_irrelevant says it is the same
+					// (its hypotheses for the permuted graph are evaluated here: an (unconverged) answer differs)
+					permOps = append(permOps, L("wspec", canonModel(sh)))
+					permRef = append(permRef, wc)
+				}
 			}
 			if bad {
 				continue
@@ -546,6 +555,21 @@ func init() {
 						}
 						break
 					}
+				}
+			}
+		}
+		if lines, err := c.D.Ask(permOps); err != nil {
+			c.R.Disagreements = append(c.R.Disagreements, Case{Stream: "driver", Kind: "correspondence", Detail: err.Error()})
+		} else {
+			for i, l := range lines {
+				c.R.DisagreementsChecked++
+				c.Dist("spec_on_permuted_types")
+				if l != permRef[i].spec.Raw {
+					c.R.Disagreements = append(c.R.Disagreements, Case{Stream: "spec:type-order", Kind: "correspondence",
+						Input:  map[string]any{"model": permRef[i].canon},
+						Op:     permOps[i],
+						Detail: "the specification gives a different answer for the model with permuted type definitions (Props/C06.type_order_irrelevant or one of its run-time hypotheses fails)",
+						Lean:   trunc(l, 400), Go: trunc(permRef[i].spec.Raw, 400)})
 				}
 			}
 		}
